@@ -89,6 +89,7 @@ SAN = "asan" in os.environ.get("LD_PRELOAD", "")
 WORKERS = 8
 BATCH = 24
 CASE_LIMIT_S = 60 if SAN else 15        # per-case watchdog inside the child
+SIZED_LIMIT_S = 240 if SAN else 60      # ... for the size-ladder / history cases
 SAN_WORDS = ("AddressSanitizer", "runtime error:", "UndefinedBehaviorSanitizer", "LeakSanitizer")
 
 ENTRIES = {}        # entry name -> (driver, generator)
@@ -300,6 +301,8 @@ def compare_runs(o1, o2):
 
 def child_case(case):
     """Evaluate one case (all its runs); returns the JSON-able record for the parent."""
+    if case.get("kind"):
+        return sized_case(case)
     layouts = ("exact", "pad")
     rec = {"name": case["name"], "entry": case["entry"], "labels": {}, "mismatch": []}
     outs = {}
@@ -332,9 +335,11 @@ def worker(cases, start, real_out, prog_fd):
     signal.signal(signal.SIGALRM, signal.SIG_DFL)       # default action: the watchdog kills this worker
     for i in range(start, len(cases)):
         case = cases[i]
+        if case.get("kind") and i != start:
+            return                                  # sized cases start in a fresh fork of the supervisor
         os.write(prog_fd, b"B %d\n" % i)
         mark("BEGIN " + case["name"])
-        signal.alarm(CASE_LIMIT_S)
+        signal.alarm(SIZED_LIMIT_S if case.get("kind") else CASE_LIMIT_S)
         t0 = time.time()
         try:
             rec = child_case(case)
@@ -350,6 +355,8 @@ def worker(cases, start, real_out, prog_fd):
         real_out.write(json.dumps(rec) + "\n")
         real_out.flush()
         os.write(prog_fd, b"E %d\n" % i)
+        if case.get("kind"):
+            return                                  # ... and leave no state behind
 
 
 def child_main(cases):
@@ -400,6 +407,9 @@ def child_main(cases):
         if rc == 0 and begun and begun[-1] == len(cases) - 1 and begun[-1] in ended:
             break
         cur = next((i for i in begun if i not in ended), None)
+        if cur is None and rc == 0 and begun:        # the worker stopped at the border of a sized case
+            start = begun[-1] + 1
+            continue
         if cur is None:
             sys.stderr.write("C20 harness: worker ended with rc=%s outside a case\n" % rc)
             sys.exit(3 if rc in (0, 3) else 4)
@@ -460,6 +470,8 @@ def spawn(cases, extra_env=None):
     env.update({"OPENBLAS_NUM_THREADS": "1", "OMP_NUM_THREADS": "1", "MKL_NUM_THREADS": "1",
                 "PYTHONHASHSEED": "0"})
     limit = 120 + CASE_LIMIT_S + (8 if SAN else 2) * len(cases)
+    if any(c.get("kind") for c in cases):
+        limit = 120 + SIZED_LIMIT_S + (40 if SAN else 10) * len(cases)
     t0 = time.time()
     try:
         pr = subprocess.run([sys.executable, os.path.abspath(__file__), "--cases-file", path],
@@ -577,10 +589,14 @@ def parent_main(args, only=None):
     if only is not None:
         cases = only
     else:
-        cases = build_cases(args.tier, args.seed)
-    # interleave entries over batches so that slow entries spread out
-    nb = max(1, min(WORKERS, (len(cases) + BATCH - 1) // BATCH))
-    batches = [cases[i::nb] for i in range(nb)]
+        cases = build_cases(args.tier, args.seed) + build_sized_cases(args.tier, args.seed)
+    base = [c for c in cases if not c.get("kind")]
+    szd = sorted((c for c in cases if c.get("kind")), key=sized_cost, reverse=True)
+    # interleave entries over batches so that slow entries spread out; the sized cases (heaviest first) are dealt
+    # into more, smaller batches that the 8 runner threads take one after the other
+    nb = max(1, min(WORKERS, (len(base) + BATCH - 1) // BATCH))
+    ns = max(1, min(3 * WORKERS, (len(szd) + 7) // 8))
+    batches = [b for b in [szd[i::ns] for i in range(ns)] + [base[i::nb] for i in range(nb)] if b]
     by_name = {c["name"]: c for c in cases}
     with ThreadPoolExecutor(max_workers=WORKERS) as ex:
         results = list(ex.map(run_batch, batches))
@@ -602,10 +618,19 @@ def parent_main(args, only=None):
                 continue
             c = by_name[r["name"]]
             wit = {"case": c["name"], "entry": c["entry"], "params": c["params"]}
+            kind = c.get("kind")
+            if kind:
+                wit["kind"] = kind
+            kname = {"ladder": "size-ladder", "history": "history"}.get(kind)
             if r.get("timeout"):
                 rep.case(None, nontrivial=False)
                 rep.skip("timeout (>%ds, hang; not a memory violation) in %s at %s" % (
                     CASE_LIMIT_S, r["name"], r.get("step")))
+                continue
+            if "died" in r and kind:
+                rep.case(None, nontrivial=False)
+                rep.fail("%s/%s" % (c["entry"], "asan" if SAN else kname + "-crash"), wit,
+                         "child interpreter died, rc=%s, in %s: %s" % (r["rc"], r.get("step"), r["died"]))
                 continue
             if "died" in r:
                 rep.case(None, nontrivial=False)
@@ -616,7 +641,7 @@ def parent_main(args, only=None):
                 rep.skip("driver-error in %s: %s" % (r["name"], r["driver_error"]))
                 continue
             ncalls = sum(d["ok"] + sum(d["exc"].values()) for d in r["labels"].values())
-            anyok = any(d["ok"] for d in r["labels"].values())
+            anyok = any(d["ok"] for d in r["labels"].values()) and (not kind or r.get("compared", 0) > 0)
             for _ in range(max(ncalls - 1, 0)):
                 rep.case(None, nontrivial=False)
             rep.case(r["name"], nontrivial=anyok,
@@ -625,7 +650,11 @@ def parent_main(args, only=None):
             if "san_report" in r:
                 rep.fail("%s/asan" % r["entry"], wit, r["san_report"])
             for m in r["mismatch"]:
-                rep.fail("%s/foreign-memory" % m["label"], wit, "layout=%s: %s" % (m["layout"], m["text"]))
+                if kind:
+                    rep.fail("%s/%s-value" % (c["entry"], kname), wit, "%s, step %d, sizes %s: %s" % (
+                        m["label"], m["step"], json.dumps(m["sizes"], sort_keys=True), m["text"]))
+                else:
+                    rep.fail("%s/foreign-memory" % m["label"], wit, "layout=%s: %s" % (m["layout"], m["text"]))
     if harness_errors:
         sys.stderr.write("C20 harness cannot run: %s\n" % harness_errors[0])
         rep.skip("harness error: " + harness_errors[0][:300])
@@ -1551,6 +1580,816 @@ def _e_vg(p, mk, rng, ctx):
     ctx.call("VisibilityGraph.advanced_local_clustering", vg.advanced_local_clustering)
 
 
+# ----------------------------------------------------------------------------- size ladders and call histories
+#
+# Every public entry point that reaches one of the raw-pointer C routines (and CouplingAnalysis' typed-buffer kernels)
+# is driven (1) over a *size ladder*: one size parameter (time steps, nodes, bins, realizations, lags, neighbours)
+# runs through values around powers of two and usual buffer limits while the other dimensions stay tiny, and
+# (2) through *histories*: several calls in one interpreter with growing, shrinking and equal sizes, on the same
+# object where the API allows it and on fresh objects that share the module state.  Every sized case starts in a
+# fresh fork of a supervisor that has imported pyunicorn but called nothing, every result is compared with an
+# independent NumPy reference (specs/c20_sizes.py), the malloc free lists are sprayed before and flushed after
+# every step, and a dead child is the failure `<entry>/size-ladder-crash` / `<entry>/history-crash`.
+
+LADDER = (1, 2, 3, 7, 8, 9, 31, 32, 33, 255, 256, 257, 1023, 1024, 1025, 2047, 2048, 2049, 4095, 4096, 4097,
+          8191, 8193)
+SIZED = {}          # entry name -> (op, ladder generator, history generator)
+
+
+def sized(name, ladder_gen, history_gen):
+    def deco(fn):
+        SIZED[name] = (fn, ladder_gen, history_gen)
+        return fn
+    return deco
+
+
+def lad(cap=None, lo=1, tier="thorough", thin=False):
+    """ladder values in [lo, cap]; `thin` drops the outer members of the triples above 1025 in quick tier
+    (1023/1024/1025 and 4095/4096/4097 always stay)."""
+    v = [x for x in LADDER if x >= lo and (cap is None or x <= cap)]
+    if thin and tier == "quick":
+        v = [x for x in v if x not in (2047, 2048, 8191)]
+    return v
+
+
+class Chk:
+    """Outcome of the public calls and reference comparisons of one step of a sized case."""
+
+    def __init__(self, rec, si, sz):
+        self.rec, self.si, self.sz = rec, si, sz
+
+    def call(self, label, fn, *a, **k):
+        mark("STEP %s step=%d sizes=%s" % (label, self.si, json.dumps(self.sz, sort_keys=True)))
+        d = self.rec["labels"].setdefault(label, {"ok": 0, "exc": {}})
+        try:
+            v = fn(*a, **k)
+        except (KeyboardInterrupt, SystemExit):
+            raise
+        except BaseException as e:      # noqa: B902 - every Python exception is an allowed rejection
+            n = type(e).__name__
+            d["exc"][n] = d["exc"].get(n, 0) + 1
+            return FAILED
+        d["ok"] += 1
+        return v
+
+    def bad(self, label, text):
+        self.rec["mismatch"].append({"label": label, "step": self.si, "sizes": self.sz, "text": str(text)[:400]})
+
+    def require(self, label, cond, text):
+        self.rec["compared"] += 1
+        if not cond:
+            self.bad(label, text)
+        return bool(cond)
+
+    def shape(self, label, got, shape, dtype=None):
+        ok = isinstance(got, np.ndarray) and got.shape == tuple(shape) and (dtype is None or got.dtype == dtype)
+        return self.require(label, ok, "result %s, expected %s%s" % (
+            "%s%s" % (got.dtype, list(got.shape)) if isinstance(got, np.ndarray) else type(got).__name__,
+            dtype or "", list(shape)))
+
+    def value(self, label, got, want, rtol, atol, what=""):
+        """got ~ want (NaN == NaN); want None: nothing to compare."""
+        if want is None:
+            return True
+        got = np.asarray(got, dtype=float)
+        want = np.asarray(want, dtype=float)
+        if got.shape != want.shape:
+            return self.require(label, False, "%s shape %s vs reference %s" % (what, got.shape, want.shape))
+        with np.errstate(all="ignore"):
+            okm = np.isclose(got, want, rtol=rtol, atol=atol, equal_nan=True)
+        if okm.all():
+            self.rec["compared"] += 1
+            return True
+        idx = np.argwhere(~okm)
+        first = tuple(int(x) for x in idx[0])
+        return self.require(label, False, "%s differs from the NumPy reference at %d of %d entries; first %s: got %r, "
+                            "reference %r (rtol %g atol %g)" % (what, len(idx), got.size, list(first),
+                                                                 float(got[first]), float(want[first]), rtol, atol))
+
+
+def sized_case(case):
+    p = case["params"]
+    fn = SIZED[case["entry"]][0]
+    rec = {"name": case["name"], "entry": case["entry"], "kind": case["kind"], "labels": {}, "mismatch": [],
+           "compared": 0}
+    st = {}
+    for si, sz in enumerate(p["steps"]):
+        seed_all(p["ds"] + si)
+        rng = np.random.RandomState((p["ds"] + 7919 * si) % (2 ** 32))
+        if not SAN:
+            spray(1 if si % 2 == 0 else -1)
+        fn(sz, rng, st, Chk(rec, si, sz))
+        if not SAN:
+            flush_heap()
+    return rec
+
+
+def _sample(rng, n, k, always=()):
+    """up to k distinct indices of range(n), `always` included"""
+    if n <= k:
+        return list(range(n))
+    s = set(int(x) for x in always if 0 <= x < n)
+    s.update(int(x) for x in rng.choice(n, size=k, replace=False)[:max(k - len(s), 0)])
+    return sorted(s)
+
+
+def _pairs(rng, n, k):
+    """all ordered pairs of range(n) (with the diagonal) if there are at most k, else k random ones + corners"""
+    if n * n <= k:
+        return [(i, j) for i in range(n) for j in range(n)]
+    ps = {(0, n - 1), (n - 1, 0), (n - 1, n - 2), (0, 0), (n - 1, n - 1), (1, 0)}
+    while len(ps) < k:
+        ps.add((int(rng.randint(n)), int(rng.randint(n))))
+    return sorted(ps)
+
+
+def hist_sizes(tier, rng, key, small, large, base, n_random=0):
+    """Histories over one size parameter `key`: grow / shrink / equal / zigzag; `base` holds the other sizes."""
+    out = []
+    for s_, l_ in zip(small, large):
+        out.append(("grow", [dict(base, **{key: s_}), dict(base, **{key: l_})]))
+        out.append(("shrink", [dict(base, **{key: l_}), dict(base, **{key: s_})]))
+        out.append(("equal", [dict(base, **{key: l_}), dict(base, **{key: l_})]))
+    zz = [small[0], large[0], small[-1], large[-1], small[0], large[0], large[0]]
+    out.append(("zigzag", [dict(base, **{key: v}) for v in zz]))
+    pool = [v for v in LADDER if min(small) <= v <= max(large)]
+    for _ in range(n_random if tier == "thorough" else 0):
+        seq = [int(rng.choice(pool)) for _ in range(5)]
+        out.append(("random", [dict(base, **{key: v}) for v in seq]))
+    return out
+
+
+def coupled(rng, T, N):
+    """continuous (tie-free) series [T, N] with a common component, so that dependence measures are not ~0"""
+    x = rng.standard_normal((T, N))
+    return x + 0.8 * rng.standard_normal((T, 1)) * np.linspace(0.5, 1.5, N)[None, :]
+
+
+# ---- RainfallClimateNetwork.spearman_corr
+
+def _l_spearman(tier):
+    for T in lad(tier=tier):
+        for m in (2, 3):
+            yield {"m": m, "T": T}
+    for m in lad(cap=2049 if tier == "thorough" else 1025, tier=tier, thin=True):
+        for T in (2, 3):
+            yield {"m": m, "T": T}
+
+
+def _h_spearman(tier, rng):
+    for obj in ("same", "fresh"):
+        for kind, steps in hist_sizes(tier, rng, "T", (8, 33, 300), (1025, 4097, 2049), {"m": 3, "obj": obj}, 3):
+            yield kind, steps
+    for kind, steps in hist_sizes(tier, rng, "m", (2, 9), (257, 33), {"T": 5, "obj": "same"}, 2):
+        yield kind, steps
+
+
+@sized("RainfallClimateNetwork.spearman_corr", _l_spearman, _h_spearman)
+def _s_spearman(sz, rng, st, chk):
+    from pyunicorn import climate
+    from specs import c20_sizes as ref
+    lab = "RainfallClimateNetwork.spearman_corr"
+    m, T = sz["m"], sz["T"]
+    if sz.get("obj") == "fresh" or "net" not in st:
+        st["net"] = climate.RainfallClimateNetwork(climate.ClimateData.SmallTestData(), threshold=0.2,
+                                                   silence_level=3)
+    mask = rng.random_sample((m, T)) < 0.6
+    an = rng.standard_normal((m, T))
+    got = chk.call(lab, st["net"].spearman_corr, mask.copy(), an.copy())
+    if got is FAILED:
+        return
+    if not chk.shape(lab, got, (m, m), np.float32):
+        return
+    rows = _sample(rng, m, 40, (0, m - 1))
+    chk.value(lab, got[rows], ref.spearman_rows(mask, an, rows), 1e-5, 2e-6, "spearman_rho rows %s.." % rows[:4])
+    chk.require(lab, np.array_equal(got, got.T, equal_nan=True), "spearman_rho is not symmetric")
+
+
+# ---- RainfallClimateNetwork.__init__
+
+def _l_rain_ctor(tier):
+    for T in lad(tier=tier, lo=2):
+        yield {"T": T, "N": 3, "tc": 1}
+    for T in lad(tier=tier, lo=31, thin=True):
+        yield {"T": T, "N": 2, "tc": 12}
+    for N in lad(cap=1025 if tier == "thorough" else 257, lo=2, tier=tier):
+        yield {"T": 4, "N": N, "tc": 1}
+
+
+def _h_rain_ctor(tier, rng):
+    for kind, steps in hist_sizes(tier, rng, "T", (10, 40), (2000, 4097), {"N": 3, "tc": 1}, 2):
+        yield kind, steps
+    for kind, steps in hist_sizes(tier, rng, "N", (2, 5), (33, 9), {"T": 6, "tc": 1}, 1):
+        yield kind, steps
+
+
+def _geo_data(chk, obs, tc):
+    from pyunicorn import climate, core
+    T, N = obs.shape
+    grid = chk.call("GeoGrid.__init__", core.GeoGrid, time_seq=np.arange(T, dtype=float),
+                    lat_seq=np.linspace(-80, 80, N), lon_seq=np.linspace(-170, 170, N), silence_level=3)
+    if grid is FAILED:
+        return FAILED
+    return chk.call("ClimateData.__init__", climate.ClimateData, observable=obs.copy(), grid=grid, time_cycle=tc,
+                    silence_level=3)
+
+
+@sized("RainfallClimateNetwork.__init__", _l_rain_ctor, _h_rain_ctor)
+def _s_rain_ctor(sz, rng, st, chk):
+    from pyunicorn import climate
+    from specs import c20_sizes as ref
+    lab = "RainfallClimateNetwork.__init__"
+    T, N, tc = sz["T"], sz["N"], sz["tc"]
+    scale, offset = 37265, 1e-7
+    obs = np.abs(rng.standard_normal((T, N))) + 0.01
+    if T >= 4:                      # dry days: rainfall exactly 0, at most one per node (ranks stay tie-free)
+        obs[1, 0] = -offset
+        obs[1, min(1, N - 1)] = -offset
+        obs[T - 1, N - 1] = -offset
+    cd = _geo_data(chk, obs, tc)
+    if cd is FAILED:
+        return
+    got = chk.call(lab, lambda: np.array(climate.RainfallClimateNetwork(
+        cd, threshold=0.1, scale_fac=scale, offset=offset, silence_level=3).similarity_measure()))
+    if got is FAILED:
+        return
+    if not chk.shape(lab, got, (N, N)):
+        return
+    mask, an = ref.rainfall_inputs(obs, tc, scale, offset)
+    rows = _sample(rng, N, 40, (0, N - 1))
+    # ClimateNetwork stores the absolute value of the similarity measure
+    chk.value(lab, got[rows], np.abs(ref.spearman_rows(mask, an, rows)), 1e-5, 2e-6,
+              "similarity_measure rows %s.." % rows[:4])
+
+
+# ---- MutualInfoClimateNetwork.calculate_similarity_measure / mutual_information
+
+def _l_mi(tier):
+    for T in lad(tier=tier, lo=2):
+        for N in (2, 3):
+            yield {"T": T, "N": N}
+    for N in lad(cap=1025 if tier == "thorough" else 257, lo=2, tier=tier):
+        yield {"T": 3, "N": N}
+
+
+def _h_mi(tier, rng):
+    for obj in ("same", "fresh"):
+        for kind, steps in hist_sizes(tier, rng, "T", (8, 40, 300), (1025, 400, 4097), {"N": 3, "obj": obj}, 3):
+            yield kind, steps
+    for kind, steps in hist_sizes(tier, rng, "N", (2, 9), (33, 65), {"T": 7, "obj": "same"}, 2):
+        yield kind, steps
+    yield "grow-nodes-and-samples", [{"T": 10, "N": 30, "obj": "same"}, {"T": 40, "N": 30, "obj": "same"},
+                                     {"T": 400, "N": 30, "obj": "same"}, {"T": 40, "N": 31, "obj": "same"}]
+
+
+def _mi_check(chk, lab, got, anomaly, rng):
+    from specs import c20_sizes as ref
+    N = anomaly.shape[1]
+    if not chk.shape(lab, got, (N, N), np.float32):
+        return
+    ps = _pairs(rng, N, 150)
+    want = ref.climate_mi_pairs(anomaly, ps)
+    chk.value(lab, np.array([got[i, j] for i, j in ps]), want, 2e-4, 1e-4, "mutual information at pairs %s.." % ps[:3])
+    chk.require(lab, bool(np.isfinite(got).all()) and np.array_equal(got, got.T), "matrix not finite / not symmetric")
+
+
+def _mi_direct(method):
+    def op(sz, rng, st, chk):
+        from pyunicorn import climate
+        lab = "MutualInfoClimateNetwork." + method
+        T, N = sz["T"], sz["N"]
+        if sz.get("obj") == "fresh" or "net" not in st:
+            st["net"] = climate.MutualInfoClimateNetwork(climate.ClimateData.SmallTestData(), threshold=0.2,
+                                                         winter_only=False, silence_level=3)
+        an = coupled(rng, T, N)
+        if method == "mutual_information":
+            got = chk.call(lab, st["net"].mutual_information, an.copy(), dump=False)
+        else:
+            got = chk.call(lab, st["net"].calculate_similarity_measure, an.copy())
+        if got is not FAILED:
+            _mi_check(chk, lab, got, an, rng)
+    return op
+
+
+sized("MutualInfoClimateNetwork.calculate_similarity_measure", _l_mi, _h_mi)(_mi_direct("calculate_similarity_measure"))
+sized("MutualInfoClimateNetwork.mutual_information", _l_mi, _h_mi)(_mi_direct("mutual_information"))
+
+
+# ---- MutualInfoClimateNetwork.__init__ / set_winter_only
+
+def _l_mi_ctor(tier):
+    for T in lad(tier=tier, lo=2):
+        yield {"T": T, "N": 3, "tc": 1, "wo": False}
+    for T in lad(tier=tier, lo=31):
+        yield {"T": T, "N": 2, "tc": 12, "wo": True}
+    for N in lad(cap=1025 if tier == "thorough" else 257, lo=2, tier=tier):
+        yield {"T": 4, "N": N, "tc": 1, "wo": False}
+
+
+def _h_mi_ctor(tier, rng):
+    for kind, steps in hist_sizes(tier, rng, "T", (12, 60), (240, 4097), {"N": 4, "tc": 1, "wo": False}, 2):
+        yield kind, steps
+    for kind, steps in hist_sizes(tier, rng, "T", (24, 60), (240, 1200), {"N": 30, "tc": 12, "wo": True}, 1):
+        yield kind, steps
+    for kind, steps in hist_sizes(tier, rng, "N", (2, 5), (33, 9), {"T": 24, "tc": 12, "wo": False}, 1):
+        yield kind, steps
+
+
+def _mi_anomaly(obs, tc, wo):
+    from specs import c20_sizes as ref
+    an = ref.phase_anomaly(obs, tc)
+    return an[ref.winter_indices(obs.shape[0], tc)] if wo else an
+
+
+@sized("MutualInfoClimateNetwork.__init__", _l_mi_ctor, _h_mi_ctor)
+def _s_mi_ctor(sz, rng, st, chk):
+    from pyunicorn import climate
+    lab = "MutualInfoClimateNetwork.__init__"
+    T, N, tc, wo = sz["T"], sz["N"], sz["tc"], sz["wo"]
+    obs = coupled(rng, T, N)
+    cd = _geo_data(chk, obs, tc)
+    if cd is FAILED:
+        return
+    got = chk.call(lab, lambda: np.array(climate.MutualInfoClimateNetwork(
+        cd, threshold=0.1, winter_only=wo, silence_level=3).similarity_measure()))
+    if got is not FAILED:
+        _mi_check(chk, lab, got, _mi_anomaly(obs, tc, wo), rng)
+
+
+def _l_winter(tier):
+    for T in lad(tier=tier, lo=31):
+        for first in (True, False):
+            yield [{"T": T, "N": 3, "wo": first}, {"T": T, "N": 3, "wo": not first}]
+
+
+def _h_winter(tier, rng):
+    for T, N in ((240, 30), (36, 3), (1200, 2), (4097, 3)) + (((2400, 30), (120, 257)) if tier == "thorough" else ()):
+        for seq in ((True, False), (False, True), (True, False, True, False), (True, True, False, False, True)):
+            yield "winter-" + "".join("WA"[not w] for w in seq), [{"T": T, "N": N, "wo": w} for w in seq]
+
+
+@sized("MutualInfoClimateNetwork.set_winter_only", _l_winter, _h_winter)
+def _s_winter(sz, rng, st, chk):
+    """one object per case: built in the first step, set_winter_only(...) on it afterwards"""
+    from pyunicorn import climate
+    T, N, wo = sz["T"], sz["N"], sz["wo"]
+    if "net" not in st:
+        lab = "MutualInfoClimateNetwork.__init__"
+        st["obs"] = coupled(rng, T, N)
+        cd = _geo_data(chk, st["obs"], 12)
+        if cd is FAILED:
+            return
+        net = chk.call(lab, climate.MutualInfoClimateNetwork, cd, threshold=0.1, winter_only=wo, silence_level=3)
+        if net is FAILED:
+            return
+        st["net"] = net
+    else:
+        lab = "MutualInfoClimateNetwork.set_winter_only"
+        if chk.call(lab, st["net"].set_winter_only, wo, dump=False) is FAILED:
+            return
+    _mi_check(chk, lab, np.array(st["net"].similarity_measure()), _mi_anomaly(st["obs"], 12, wo), rng)
+    chk.require(lab, np.asarray(st["net"].adjacency).shape == (N, N), "adjacency shape")
+
+
+# ---- Surrogates.test_pearson_correlation / test_mutual_information
+
+def _l_pearson(tier):
+    for T in lad(tier=tier):
+        for N in (2, 3):
+            yield {"N": N, "T": T}
+    for N in lad(cap=2049 if tier == "thorough" else 1025, tier=tier, thin=True):
+        yield {"N": N, "T": 3}
+
+
+def _h_pearson(tier, rng):
+    for kind, steps in hist_sizes(tier, rng, "T", (8, 33, 300), (1025, 4097, 2049), {"N": 3}, 3):
+        yield kind, steps
+    for kind, steps in hist_sizes(tier, rng, "N", (2, 9), (257, 33), {"T": 5}, 2):
+        yield kind, steps
+
+
+def _surr_obj(st, N, T):
+    """test_* are static methods: they are reached through one Surrogates object kept for the whole case"""
+    from pyunicorn import timeseries
+    if "s" not in st:
+        st["s"] = timeseries.Surrogates(np.zeros((2, 4)), silence_level=3)
+    return st["s"]
+
+
+@sized("Surrogates.test_pearson_correlation", _l_pearson, _h_pearson)
+def _s_pearson(sz, rng, st, chk):
+    from specs import c20_sizes as ref
+    lab = "Surrogates.test_pearson_correlation"
+    N, T = sz["N"], sz["T"]
+    o, s = rng.standard_normal((N, T)), rng.standard_normal((N, T))
+    got = chk.call(lab, _surr_obj(st, N, T).test_pearson_correlation, o.copy(), s.copy())
+    if got is FAILED or not chk.shape(lab, got, (N, N), np.float32):
+        return
+    chk.value(lab, got, ref.surrogate_pearson(o, s), 1e-5, 1e-6, "correlation")
+
+
+def _l_tmi(tier):
+    for T in lad(tier=tier):
+        yield {"N": 2, "T": T, "nb": 32}
+        yield {"N": 3, "T": T, "nb": 3}
+    for nb in lad(cap=2049, tier=tier, thin=True):
+        yield {"N": 2, "T": 3, "nb": nb}
+        yield {"N": 3, "T": 100, "nb": nb}
+    for N in lad(cap=1025 if tier == "thorough" else 257, tier=tier):
+        yield {"N": N, "T": 3, "nb": 4}
+
+
+def _h_tmi(tier, rng):
+    for kind, steps in hist_sizes(tier, rng, "T", (8, 33, 300), (1025, 4097, 2049), {"N": 3, "nb": 32}, 3):
+        yield kind, steps
+    for kind, steps in hist_sizes(tier, rng, "nb", (2, 4, 31), (32, 257, 1025), {"N": 3, "T": 50}, 3):
+        yield kind, steps
+    for kind, steps in hist_sizes(tier, rng, "N", (2, 9), (65, 33), {"T": 5, "nb": 4}, 2):
+        yield kind, steps
+    yield "bins-then-samples", [{"N": 3, "T": 20, "nb": 64}, {"N": 3, "T": 2000, "nb": 8}, {"N": 3, "T": 20, "nb": 8},
+                                {"N": 3, "T": 2000, "nb": 64}, {"N": 4, "T": 2000, "nb": 64}]
+
+
+@sized("Surrogates.test_mutual_information", _l_tmi, _h_tmi)
+def _s_tmi(sz, rng, st, chk):
+    from specs import c20_sizes as ref
+    lab = "Surrogates.test_mutual_information"
+    N, T, nb = sz["N"], sz["T"], sz["nb"]
+    o = coupled(rng, T, N).T.copy()
+    s = (o[::-1] + 0.5 * rng.standard_normal((N, T))).copy()
+    got = chk.call(lab, _surr_obj(st, N, T).test_mutual_information, o.copy(), s.copy(), n_bins=nb)
+    if got is FAILED or not chk.shape(lab, got, (N, N), np.float32):
+        return
+    ps = _pairs(rng, N, 150)
+    chk.value(lab, np.array([got[i, j] for i, j in ps]), ref.surrogate_mi_pairs(o, s, nb, ps), 2e-4, 1e-4,
+              "mutual information at pairs %s.." % ps[:3])
+    chk.require(lab, bool(np.isfinite(got).all()), "matrix not finite")
+
+
+# ---- Surrogates.test_threshold_significance / original_distribution (one object, user supplied surrogate function)
+
+def _l_sig(tier):
+    for fn in ("pearson", "mi"):
+        for R in lad(cap=33 if tier == "quick" else 257, tier=tier):
+            yield {"N": 3, "T": 20, "R": R, "fn": fn, "hb": 50}
+        for T in lad(tier=tier, lo=3, thin=True):
+            yield {"N": 2, "T": T, "R": 2, "fn": fn, "hb": 20}
+        for hb in lad(cap=2049, tier=tier, thin=True):
+            yield {"N": 3, "T": 20, "R": 2, "fn": fn, "hb": hb}
+
+
+def _h_sig(tier, rng):
+    for fn in ("pearson", "mi"):
+        for kind, steps in hist_sizes(tier, rng, "T", (8, 300), (1025, 4097), {"N": 3, "R": 2, "fn": fn, "hb": 20}, 1):
+            yield kind + "-" + fn, steps
+        for kind, steps in hist_sizes(tier, rng, "R", (1, 3), (9, 33), {"N": 3, "T": 30, "fn": fn, "hb": 20}, 1):
+            yield kind + "-" + fn, steps
+    yield "mixed", [{"N": 3, "T": 30, "R": 2, "fn": "mi", "hb": 20}, {"N": 3, "T": 30, "R": 2, "fn": "pearson", "hb": 20},
+                    {"N": 3, "T": 30, "R": 5, "fn": "mi", "hb": 100}, {"N": 3, "T": 30, "R": 5, "fn": "mi", "hb": 100}]
+
+
+def _density(mats, hb, interval):
+    tot = np.zeros(hb)
+    n_in = 0
+    for m in mats:
+        v = np.abs(np.asarray(m, dtype=np.float32))
+        with np.errstate(all="ignore"):
+            h, _ = np.histogram(v, hb, interval, density=True)
+        tot += h
+        n_in += int(((v >= interval[0]) & (v <= interval[1])).sum())
+    with np.errstate(all="ignore"):
+        return tot / tot.sum(), n_in
+
+
+@sized("Surrogates.test_threshold_significance", _l_sig, _h_sig)
+def _s_sig(sz, rng, st, chk):
+    import functools
+    from pyunicorn import timeseries
+    from specs import c20_sizes as ref
+    S = timeseries.Surrogates
+    N, T, R, hb = sz["N"], sz["T"], sz["R"], sz["hb"]
+    key = (N, T)
+    if st.get("key") != key:            # same object as long as the record keeps its shape
+        st["key"] = key
+        st["orig"] = coupled(rng, T, N).T.copy()
+        st["s"] = S(st["orig"].copy(), silence_level=3)
+    o = st["orig"]
+    with np.errstate(all="ignore"):
+        sd = o.std(axis=1, keepdims=True)
+        on = (o - o.mean(axis=1, keepdims=True)) / np.where(sd != 0, sd, 1.0)
+    surrs = [on[::-1] * 0.5 + 0.5 * rng.standard_normal((N, T)) for _ in range(R)]
+    if sz["fn"] == "pearson":
+        test, interval = S.test_pearson_correlation, (-1, 1)
+        refm = [ref.surrogate_pearson(on, x) for x in surrs]
+        ref0 = ref.surrogate_pearson(on, on)
+    else:
+        test, interval = functools.partial(S.test_mutual_information, n_bins=8), (0, 4)
+        allp = [(i, j) for i in range(N) for j in range(N)]
+        refm = [ref.surrogate_mi_pairs(on, x, 8, allp) for x in surrs]
+        ref0 = ref.surrogate_mi_pairs(on, on, 8, allp)
+    it = iter([x.copy() for x in surrs])
+    lab = "Surrogates.test_threshold_significance"
+    got = chk.call(lab, st["s"].test_threshold_significance, lambda self: next(it), test, realizations=R, n_bins=hb,
+                   interval=interval)
+    if got is not FAILED and all(m is not None for m in refm):
+        dens, lbb = got
+        if chk.shape(lab, dens, (hb,)) and chk.shape(lab, lbb, (hb,)):
+            want, n_in = _density(refm, hb, interval)
+            if np.isfinite(want).all():
+                l1 = float(np.abs(dens - want).sum())
+                chk.require(lab, np.isfinite(dens).all() and l1 <= 2.0 * (1 + 0.02 * n_in) / max(n_in, 1),
+                            "density differs from the reference histogram: L1 distance %g with %d values" % (l1, n_in))
+    lab = "Surrogates.original_distribution"
+    got = chk.call(lab, st["s"].original_distribution, test, n_bins=hb)
+    if got is not FAILED and ref0 is not None:
+        hist, lbb = got
+        chk.shape(lab, hist, (hb,))
+        chk.shape(lab, lbb, (hb,))
+
+
+# ---- ResNetwork current flow betweenness
+
+def _res_graph(rng, N):
+    A = np.zeros((N, N), dtype=np.int8)
+    for i in range(N - 1):
+        A[i, i + 1] = A[i + 1, i] = 1
+    if N > 2:
+        A[0, N - 1] = A[N - 1, 0] = 1
+    for _ in range(N // 2):
+        i, j = int(rng.randint(N)), int(rng.randint(N))
+        if i != j:
+            A[i, j] = A[j, i] = 1
+    return A
+
+
+def _res_values(rng, A):
+    r = 1.0 + rng.random_sample(A.shape)
+    return (r + r.T) * A
+
+
+def _l_vcfb(tier):
+    for N in lad(cap=1025 if tier == "thorough" else 257, lo=2, tier=tier):
+        yield {"N": N}
+
+
+def _l_ecfb(tier):
+    for N in lad(cap=257 if tier == "thorough" else 33, lo=2, tier=tier) + ([65] if tier == "quick" else []):
+        yield {"N": N}
+
+
+def _h_res(big):
+    def gen(tier, rng):
+        for kind, steps in hist_sizes(tier, rng, "N", (3, 9), big, {"obj": "fresh"}, 2):
+            yield kind, steps
+        for N in (5, big[0]):
+            yield "update-resistances", [{"N": N, "obj": "same"}] * 3
+    return gen
+
+
+def _res_net(sz, rng, st, chk):
+    """fresh ResNetwork, or update_resistances(...) on the one of the previous step (same number of nodes)"""
+    from pyunicorn import core
+    N = sz["N"]
+    if sz.get("obj") == "same" and st.get("N") == N and "net" in st:
+        res = _res_values(rng, st["A"])
+        if chk.call("ResNetwork.update_resistances", st["net"].update_resistances, res.copy()) is FAILED:
+            return None, None, None
+    else:
+        A = _res_graph(rng, N)
+        res = _res_values(rng, A)
+        net = chk.call("ResNetwork.__init__", core.ResNetwork, res.copy(), adjacency=A.copy(), silence_level=3)
+        if net is FAILED:
+            st.pop("net", None)
+            return None, None, None
+        st.update(net=net, A=A, N=N)
+    return st["net"], st["A"], res
+
+
+@sized("ResNetwork.vertex_current_flow_betweenness", _l_vcfb, _h_res((129, 257)))
+def _s_vcfb(sz, rng, st, chk):
+    from specs import c20_sizes as ref
+    lab = "ResNetwork.vertex_current_flow_betweenness"
+    net, A, res = _res_net(sz, rng, st, chk)
+    if net is None:
+        return
+    N = sz["N"]
+    adm = ref.admittance_of(res, A)
+    R = ref.laplacian_pinv(adm)
+    for i in sorted({0, N // 2, N - 1}):
+        got = chk.call(lab, net.vertex_current_flow_betweenness, i)
+        if got is not FAILED and N > 1:
+            chk.value(lab, got, ref.vcfb(adm, R, i), 1e-3, 1e-6, "VCFB(%d)" % i)
+
+
+@sized("ResNetwork.edge_current_flow_betweenness", _l_ecfb, _h_res((33, 65)))
+def _s_ecfb(sz, rng, st, chk):
+    from specs import c20_sizes as ref
+    lab = "ResNetwork.edge_current_flow_betweenness"
+    net, A, res = _res_net(sz, rng, st, chk)
+    if net is None:
+        return
+    N = sz["N"]
+    got = chk.call(lab, net.edge_current_flow_betweenness)
+    if got is FAILED or not chk.shape(lab, got, (N, N), np.float32):
+        return
+    adm = ref.admittance_of(res, A)
+    chk.value(lab, got, ref.ecfb(adm, ref.laplacian_pinv(adm)), 1e-3, 1e-6, "ECFB")
+
+
+# ---- CouplingAnalysis
+
+def _l_cc(tier):
+    for T in lad(tier=tier, lo=3):
+        yield {"T": T, "N": 2, "tau": 1}
+        yield {"T": T, "N": 3, "tau": min(2, T - 2)}
+    for N in lad(cap=1025 if tier == "thorough" else 257, tier=tier):
+        yield {"T": 5, "N": N, "tau": 1}
+    for tau in (0, 1, 2, 3, 7, 8, 9, 31, 32, 33, 126, 127):         # lags are stored as int8
+        yield {"T": 200, "N": 2, "tau": tau}
+        yield {"T": tau + 2, "N": 3, "tau": tau}
+
+
+def _h_cc(tier, rng):
+    for obj in ("fresh",):
+        for kind, steps in hist_sizes(tier, rng, "T", (8, 300), (1025, 4097), {"N": 3, "tau": 2}, 2):
+            yield kind, steps
+        for kind, steps in hist_sizes(tier, rng, "N", (2, 9), (65, 33), {"T": 12, "tau": 1}, 1):
+            yield kind, steps
+    for kind, steps in hist_sizes(tier, rng, "tau", (0, 2), (33, 127), {"T": 300, "N": 3, "obj": "same"}, 2):
+        yield kind, steps
+
+
+@sized("CouplingAnalysis.cross_correlation", _l_cc, _h_cc)
+def _s_cc(sz, rng, st, chk):
+    from pyunicorn import funcnet
+    from specs import c20_sizes as ref
+    T, N, tau = sz["T"], sz["N"], sz["tau"]
+    key = (T, N)
+    if not (sz.get("obj") == "same" and st.get("key") == key):
+        data = coupled(rng, T, N)
+        if T > 3 and N > 1:
+            data[1:, 1] += data[:-1, 0]
+        ca = chk.call("CouplingAnalysis.__init__", funcnet.CouplingAnalysis, data.copy(), silence_level=3)
+        if ca is FAILED:
+            return
+        st.update(key=key, ca=ca, data=data)
+    ca, data = st["ca"], st["data"]
+    want = ref.cross_correlation_all(data, tau) if T - tau >= 2 else None
+    lab = "CouplingAnalysis.cross_correlation[all]"
+    got = chk.call(lab, ca.cross_correlation, tau_max=tau, lag_mode="all")
+    if got is not FAILED and chk.shape(lab, got, (N, N, tau + 1), np.float32):
+        chk.value(lab, got, want, 1e-4, 3e-5, "lag functions")
+    lab = "CouplingAnalysis.cross_correlation[max]"
+    got = chk.call(lab, ca.cross_correlation, tau_max=tau, lag_mode="max")
+    if got is FAILED:
+        return
+    sim, lag = got
+    if not (chk.shape(lab, sim, (N, N), np.float32) and chk.shape(lab, lag, (N, N), np.int8)):
+        return
+    if want is not None:
+        off = ~np.eye(N, dtype=bool)
+        chk.require(lab, bool(((lag >= 0) & (lag <= tau)).all()), "lag outside 0..tau_max")
+        lg = np.clip(lag.astype(int), 0, tau)
+        at = np.take_along_axis(want, lg[:, :, None], axis=2)[:, :, 0]
+        tol = 3e-5 + 1e-4 * np.abs(at)
+        ok = (np.abs(sim - at) <= tol) & (np.abs(at) >= np.abs(want).max(axis=2) - 2 * tol)
+        chk.require(lab, bool(ok[off].all()), "value / lag at the absolute maximum differ from the reference at %d pairs"
+                    % int((~ok[off]).sum()))
+        chk.require(lab, bool((np.diag(sim) == 1).all() and (np.diag(lag) == 0).all()), "diagonal is not (1, lag 0)")
+        chk.call("CouplingAnalysis.symmetrize_by_absmax", ca.symmetrize_by_absmax, sim.copy(), lag.copy())
+
+
+def _l_gnn(tier):
+    for T in lad(tier=tier, lo=3, cap=8193 if tier == "thorough" else 4097):
+        yield {"T": T, "dim": 2, "k": 1 if T < 8 else 5}
+        if T <= 4097:
+            yield {"T": T, "dim": 3, "k": 2}
+    for k in lad(cap=1025 if tier == "thorough" else 257, tier=tier):
+        yield {"T": k + 1, "dim": 2, "k": k}
+        yield {"T": 2 * k + 5, "dim": 3, "k": k}
+
+
+def _h_gnn(tier, rng):
+    for kind, steps in hist_sizes(tier, rng, "T", (8, 300), (1025, 2049), {"dim": 2, "k": 3}, 2):
+        yield kind, steps
+    for kind, steps in hist_sizes(tier, rng, "k", (1, 3), (33, 257), {"T": 600, "dim": 3}, 2):
+        yield kind, steps
+
+
+@sized("CouplingAnalysis.get_nearest_neighbors", _l_gnn, _h_gnn)
+def _s_gnn(sz, rng, st, chk):
+    from pyunicorn import funcnet
+    from specs import c20_sizes as ref
+    lab = "CouplingAnalysis.get_nearest_neighbors"
+    T, dim, k = sz["T"], sz["dim"], sz["k"]
+    # distinct multiples of 1/64 >= 1/64: exact in float32, and the wrapper's 1e-10 tie-breaking noise rounds away
+    arr = np.array([(rng.permutation(T) + 1) / 64.0 for _ in range(dim)])
+    got = chk.call(lab, funcnet.CouplingAnalysis.get_nearest_neighbors, array=arr.copy(), xyz=np.arange(dim), k=k,
+                   standardize=False)
+    if got is FAILED:
+        return
+    want = ref.knn_counts(arr, 1, 1, k, chunk=64 if T > 3000 else 256)
+    for name, g, w in zip(("k_xz", "k_yz", "k_z"), got, want):
+        if chk.shape(lab, g, (T,)):
+            chk.require(lab, np.array_equal(np.asarray(g, dtype=np.int64), w),
+                        "%s differs from the brute-force count at %d of %d points" % (
+                            name, int((np.asarray(g, dtype=np.int64) != w).sum()), T))
+
+
+def _l_knn(tier):
+    for T in lad(tier=tier, lo=31, cap=4097, thin=True):
+        yield {"T": T, "N": 2, "tau": 0, "knn": 4}
+    for T in lad(tier=tier, lo=31, cap=1025):
+        yield {"T": T, "N": 2, "tau": 1, "knn": 3}
+    for N in lad(cap=33 if tier == "thorough" else 9, tier=tier):
+        yield {"T": 40, "N": N, "tau": 0, "knn": 3}
+    for knn in lad(cap=257 if tier == "thorough" else 33, tier=tier):
+        yield {"T": 2 * knn + 20, "N": 2, "tau": 0, "knn": knn}
+
+
+def _h_knn(tier, rng):
+    for kind, steps in hist_sizes(tier, rng, "T", (40, 300), (1025, 600), {"N": 2, "tau": 1, "knn": 4}, 1):
+        yield kind, steps
+    for kind, steps in hist_sizes(tier, rng, "knn", (1, 3), (33, 100), {"T": 300, "N": 2, "tau": 0, "obj": "same"}, 1):
+        yield kind, steps
+
+
+@sized("CouplingAnalysis.mutual_information[knn]", _l_knn, _h_knn)
+def _s_knn(sz, rng, st, chk):
+    from scipy import special
+    from pyunicorn import funcnet
+    from specs import c20_sizes as ref
+    T, N, tau, knn = sz["T"], sz["N"], sz["tau"], sz["knn"]
+    key = (T, N)
+    if not (sz.get("obj") == "same" and st.get("key") == key):
+        data = coupled(rng, T, N)
+        ca = chk.call("CouplingAnalysis.__init__", funcnet.CouplingAnalysis, data.copy(), silence_level=3)
+        if ca is FAILED:
+            return
+        st.update(key=key, ca=ca, data=data)
+    ca, data = st["ca"], st["data"]
+    lab = "CouplingAnalysis.mutual_information[knn]"
+    got = chk.call(lab, ca.mutual_information, tau_max=tau, estimator="knn", knn=knn, lag_mode="all")
+    if got is not FAILED and chk.shape(lab, got, (N, N, tau + 1), np.float32):
+        chk.require(lab, bool(np.isfinite(got).all()), "MI not finite")
+        ps = [(i, j) for i in range(N) for j in range(N) if i != j][:4]
+        for i, j in ps:
+            for t in range(tau + 1):
+                a = np.array([data[tau - t:T - t, i], data[tau:T, j]]).astype(np.float32)
+                a -= a.mean(axis=1).reshape(2, 1)
+                a /= a.std(axis=1).reshape(2, 1)
+                kxz, kyz, kz = ref.knn_counts(a, 1, 1, knn, chunk=64 if T > 3000 else 256)
+                want = special.digamma(knn) + (-special.digamma(kxz) - special.digamma(kyz) + special.digamma(kz)).mean()
+                chk.value(lab, got[i, j, t], want, 1e-3, 2e-3, "MI(%d,%d,lag %d)" % (i, j, t))
+        gm = chk.call(lab, ca.mutual_information, tau_max=tau, estimator="knn", knn=knn, lag_mode="max")
+        if gm is not FAILED and chk.shape(lab, gm[0], (N, N), np.float32) and chk.shape(lab, gm[1], (N, N), np.int8):
+            chk.value(lab, gm[0], np.maximum(got.max(axis=2), 0), 1e-3, 2e-3, "maximum over lags")
+    if T - tau - 1 > 2 * knn and T <= 1100:
+        lab = "CouplingAnalysis.information_transfer[knn]"
+        for cm in ("ity", "mit"):
+            g = chk.call(lab, ca.information_transfer, tau_max=tau, estimator="knn", knn=knn, past=1, cond_mode=cm,
+                         lag_mode="all")
+            if g is not FAILED and chk.shape(lab, g, (N, N, tau + 1), np.float32):
+                chk.require(lab, bool(np.isfinite(g).all()), "information transfer not finite")
+
+
+def sized_cost(case):
+    """rough work estimate of a sized case, for spreading the cases over the children"""
+    c = 0.0
+    for sz in case["params"]["steps"]:
+        T, N = sz.get("T", sz.get("k", 4)), sz.get("N", sz.get("m", 3))
+        e = case["entry"]
+        if "current_flow" in e:
+            c += N ** 3 * (N if "edge" in e else 1) / 1e6 + N * N / 1e4
+        elif "knn" in e or "nearest" in e:
+            c += T * T * (N * N if "knn" in e else 1) / 2e5
+        else:
+            c += N * N * (T + sz.get("nb", 32) ** 2 / 8.0) / 1e5 + T * N / 1e4 + sz.get("R", 0) / 10.0
+    return c + 1.0
+
+
+def build_sized_cases(tier, seed):
+    cases, seen = [], set()
+    for i, (name, (_, lgen, hgen)) in enumerate(SIZED.items()):
+        rng = np.random.RandomState((seed * 1000003 + i * 7919 + 4242) % (2 ** 32))
+
+        def add(kind, label, steps):
+            steps = jsonable(steps)
+            nm = "%s:%s[%s]" % (kind, name, label)
+            if nm in seen:
+                return
+            seen.add(nm)
+            cases.append({"name": nm, "entry": name, "kind": kind,
+                          "params": {"steps": steps, "ds": int(rng.randint(0, 2 ** 31 - 1))}})
+        for sz in lgen(tier):
+            steps = sz if isinstance(sz, list) else [sz]
+            add("ladder", ";".join(",".join("%s=%s" % (k, json.dumps(s[k])) for k in sorted(s)) for s in steps), steps)
+        for hk, steps in hgen(tier, rng):
+            add("history", hk + ":" + ";".join(",".join("%s=%s" % (k, json.dumps(s[k])) for k in sorted(s))
+                                              for s in steps), steps)
+    return cases
+
+
 # ----------------------------------------------------------------------------- main
 
 def main():
@@ -1564,7 +2403,8 @@ def main():
             child_main(json.load(f))
     args = parse_args(rest)
     if own.case:                                         # one named case, in this process
-        cases = [c for c in build_cases(args.tier, args.seed) if c["name"] in own.case.split(";")]
+        cases = [c for c in build_cases(args.tier, args.seed) + build_sized_cases(args.tier, args.seed)
+                 if c["name"] in own.case.split(";")]
         if not cases:
             sys.stderr.write("no such case for tier=%s seed=%d\n" % (args.tier, args.seed))
             sys.exit(3)
@@ -1574,13 +2414,16 @@ def main():
         with open(args.replay) as f:
             w = json.load(f)
         w = w.get("witness", w)
-        if w.get("entry") not in ENTRIES:
+        if w.get("entry") not in (SIZED if w.get("kind") else ENTRIES):
             sys.stderr.write("replay: unknown entry %r\n" % (w.get("entry"),))
             sys.exit(3)
         only = [{"name": w.get("case") or case_name(w["entry"], w["params"]), "entry": w["entry"],
                  "params": w["params"]}]
+        if w.get("kind"):
+            only[0]["kind"] = w["kind"]
     if own.only and only is None:
-        only = [c for c in build_cases(args.tier, args.seed) if own.only in c["entry"]]
+        only = [c for c in build_cases(args.tier, args.seed) + build_sized_cases(args.tier, args.seed)
+                if own.only in c["entry"] or own.only in c["name"]]
     parent_main(args, only)
 
 
